@@ -125,10 +125,14 @@ func NewBatchSpanProcessor(exporter SpanExporter, options ...BatchSpanProcessorO
 	if o.ExportTimeout < 0 {
 		o.ExportTimeout = DefaultExportTimeout * time.Millisecond
 	}
+	// The capacity of the batch is only a hint (the batch grows by append): it
+	// must not be taken unchecked from an arbitrarily large option value
+	// (WithMaxExportBatchSize(math.MaxInt64) panicked in makeslice).
+	batchCap := min(o.MaxExportBatchSize, o.MaxQueueSize)
 	bsp := &batchSpanProcessor{
 		e:        exporter,
 		o:        o,
-		batch:    make([]ReadOnlySpan, 0, o.MaxExportBatchSize),
+		batch:    make([]ReadOnlySpan, 0, batchCap),
 		timer:    time.NewTimer(o.BatchTimeout),
 		queue:    make(chan ReadOnlySpan, o.MaxQueueSize),
 		stopCh:   make(chan struct{}),
